@@ -18,7 +18,7 @@ for s in $seeds; do
   case $s in
     unfix-D1) props="C01";; unfix-D8) props="C20";; unfix-D2) props="C02 C03";; unfix-D3) props="C09";; unfix-D4) props="C11";; unfix-D5) props="C19";; unfix-D6) props="C07";; unfix-D7) props="C06";;
     C10-r3-1|C10-r5-1) props="C10 C02";;      # the returned LayerData of the trait API: C02's subject
-    C02-r5-1) props="C02 C01";; C07-r5-1) props="C07 C01";; C08-r6-1) props="C08 C06";; C08-r6-2) props="C08 C15";;      # a refused write that damages the layer file: seen by the next request (C01)
+    C02-r5-1) props="C02 C01";; C07-r5-1) props="C07 C01";; C08-r6-1) props="C08 C06";; C08-r6-2) props="C08 C15";; C08-r7-2) props="C08 C13";;      # a refused write that damages the layer file: seen by the next request (C01)
     *) props=${s%%-*};;
   esac
   git -C $MX/repo checkout -q -- . ; git -C $MX/repo apply $patch 2>/dev/null || { echo -e "$s\t-\tPATCH-DOES-NOT-APPLY" >> $out.tmp; continue; }
